@@ -50,7 +50,8 @@ TRUSTED = [
     'list(set(...)) in Dataset.load_data: only membership of the keep list is used by the loaders (proved for npy: C17_keep_membership)',
 ]
 
-NAMES = ['ra', 'dec', 'time', 'run', 'ang_err', 'log_e', 'true_ra', 'mcw', 'x8', 'x9', 'x10', 'x11']
+NAMES = ['ra', 'dec', 'time', 'run', 'ang_err', 'log_e', 'true_ra', 'mcw', 'x8', 'x9', 'x10', 'x11',
+         'e', 'energy', 'log_energy']       # names that are substrings of one another (a str argument must not be a substring test)
 DTYPES = [np.dtype(np.int32), np.dtype(np.int64), np.dtype(np.float32), np.dtype(np.float64)]
 DT_CODE = {d: i for i, d in enumerate(DTYPES)}
 ERRS = ('IndexError', 'KeyError', 'TypeError', 'ValueError', 'NameError', 'ZeroDivisionError',
@@ -302,6 +303,18 @@ def run_l1(ctx, case, exprs, checks):
                               'keep_fields / dtype_conversion_except_fields given as str load differently from the one-element list',
                               case={'files': specs, 'keep': keep, 'conv': conv, 'exc': exc, 'level': 1, 'as_str': True},
                               impl={'list': res[mode], 'str': r})
+        for fmt_, key_, site_ in (('csv', 'csv', 'TextFileLoader.load_data'), ('parquet', 'pq', 'ParquetFileLoader.load_data')):
+            if fmt_ == 'parquet' and not HAVE_PQ:
+                continue
+            p3 = write_files(specs, fmt_)
+            r = impl_loader(p3, keep, conv, exc, as_str=True)
+            r0 = impl_loader(p3, keep, conv, exc)
+            cleanup(p3)
+            if r != r0:
+                ctx.violation(site_, 'str-argument-differs-from-list',
+                              'keep_fields / dtype_conversion_except_fields given as str load differently from the one-element list',
+                              case={'files': specs, 'keep': keep, 'conv': conv, 'exc': exc, 'level': 1, 'as_str': True},
+                              impl={'list': r0, 'str': r})
     if case.get('badmode'):
         for bad, want in (('Time', 'ValueError'), ('MEMORY', 'ValueError'), ('', 'ValueError'), ('time ', 'ValueError'), (1, 'TypeError')):
             r = impl_loader(p, keep, conv, exc, bad)
@@ -1412,7 +1425,13 @@ def corpus_cases():
         both.append(dict(base, cfg=[[4, 4], [1, 4]], dsf=[], exp=[fr], mc=[fr], exp_ren=[[2, 4]], mc_ren=[[2, 4]], conv=[[3, 1]],
                          exc=[4], exc_str=exc_str, try_pkl=False))
         both.append(dict(base, cfg=[[2, 4], [1, 4]], dsf=[], exp=[fr], mc=[], conv=[[3, 0]], exc=[2], exc_str=exc_str, try_pkl=False))
-    return both + [
+    sub1 = {'sch': [[14, 3], [13, 3], [12, 1], [0, 3], [6, 3]], 'rows': [[1, 2, 3, 4, 5], [6, 7, 8, 9, 10], [11, 12, 13, 14, 15]]}
+    sub2 = {'sch': [[13, 3], [14, 3], [6, 3], [12, 1], [0, 3]], 'rows': [[21, 22, 23, 24, 25]]}
+    subs = []
+    for files in ([sub1], [sub1, sub2]):
+        for keep, exc in (([14], []), ([6], []), ([13], [14]), (None, [14]), (None, [6]), ([14, 13, 12, 0, 6], [13])):
+            subs.append({'level': 1, 'files': files, 'keep': keep, 'conv': [[3, 2], [1, 0]], 'exc': exc, 'badmode': False})
+    return subs + both + [
         # dataset-level analysis field must survive tidy_up (fix 5fbad79)
         dict(base, cfg=[[0, 4]], dsf=[[8, 4]], exp=[f]),
         # dataset-level required field missing from the file must be reported (fix 5fbad79)
